@@ -6,7 +6,7 @@ import numpy as np
 from numpy.typing import NDArray
 
 from ropt.config.enopt import EnOptConfig
-from ropt.evaluator import Evaluator, EvaluatorContext
+from ropt.evaluator import Evaluator, EvaluatorContext, EvaluatorResult
 from ropt.transforms import OptModelTransforms
 
 
@@ -114,6 +114,26 @@ def _get_active_realizations(
     return active_objectives, active_constraints
 
 
+def _transform_evaluator_result(
+    evaluator_result: EvaluatorResult, transforms: OptModelTransforms | None
+) -> EvaluatorResult:
+    # The object returned by the evaluator may be reused by the evaluator, it
+    # must not be modified. Return a new object with the transformed values:
+    objectives = evaluator_result.objectives
+    constraints = evaluator_result.constraints
+    if transforms is not None:
+        if transforms.objectives is not None:
+            objectives = transforms.objectives.to_optimizer(objectives)
+        if constraints is not None and transforms.nonlinear_constraints is not None:
+            constraints = transforms.nonlinear_constraints.to_optimizer(constraints)
+    return EvaluatorResult(
+        objectives=objectives,
+        constraints=constraints,
+        batch_id=evaluator_result.batch_id,
+        evaluation_info=evaluator_result.evaluation_info,
+    )
+
+
 def _get_function_results(  # noqa: PLR0913
     config: EnOptConfig,
     transforms: OptModelTransforms | None,
@@ -134,20 +154,7 @@ def _get_function_results(  # noqa: PLR0913
     if transforms is not None and transforms.variables:
         variables = transforms.variables.from_optimizer(variables)
     evaluator_result = evaluator(np.repeat(variables, realization_num, axis=0), context)
-    if transforms is not None:
-        if transforms.objectives is not None:
-            evaluator_result.objectives = transforms.objectives.to_optimizer(
-                evaluator_result.objectives
-            )
-        if (
-            evaluator_result.constraints is not None
-            and transforms.nonlinear_constraints is not None
-        ):
-            evaluator_result.constraints = (
-                transforms.nonlinear_constraints.to_optimizer(
-                    evaluator_result.constraints
-                )
-            )
+    evaluator_result = _transform_evaluator_result(evaluator_result, transforms)
     split_objectives = np.vsplit(evaluator_result.objectives, variables.shape[0])
     split_constraints = (
         []
@@ -193,20 +200,7 @@ def _get_gradient_results(  # noqa: PLR0913
     if transforms is not None and transforms.variables:
         variables = transforms.variables.from_optimizer(variables)
     evaluator_result = evaluator(variables, context)
-    if transforms is not None:
-        if transforms.objectives is not None:
-            evaluator_result.objectives = transforms.objectives.to_optimizer(
-                evaluator_result.objectives
-            )
-        if (
-            evaluator_result.constraints is not None
-            and transforms.nonlinear_constraints is not None
-        ):
-            evaluator_result.constraints = (
-                transforms.nonlinear_constraints.to_optimizer(
-                    evaluator_result.constraints
-                )
-            )
+    evaluator_result = _transform_evaluator_result(evaluator_result, transforms)
     return _GradientEvaluatorResults(
         batch_id=evaluator_result.batch_id,
         perturbed_objectives=evaluator_result.objectives,
@@ -255,20 +249,7 @@ def _get_function_and_gradient_results(  # noqa: PLR0913
     if transforms is not None and transforms.variables:
         all_variables = transforms.variables.from_optimizer(all_variables)
     evaluator_result = evaluator(all_variables, context)
-    if transforms is not None:
-        if transforms.objectives is not None:
-            evaluator_result.objectives = transforms.objectives.to_optimizer(
-                evaluator_result.objectives
-            )
-        if (
-            evaluator_result.constraints is not None
-            and transforms.nonlinear_constraints is not None
-        ):
-            evaluator_result.constraints = (
-                transforms.nonlinear_constraints.to_optimizer(
-                    evaluator_result.constraints
-                )
-            )
+    evaluator_result = _transform_evaluator_result(evaluator_result, transforms)
     return (
         _FunctionEvaluatorResults(
             batch_id=evaluator_result.batch_id,
